@@ -52,7 +52,7 @@ def gen(tier, rng):
     for cls, n in [("text", 500), ("random", 300), ("empty", 0), ("runs", 2000), ("zeros", 8), ("zeros", 300), ("ff", 1001), ("zeros", 4096), ("ff", 70000)]:
         a, b = igz.corpus(rng, cls, n), igz.corpus(rng, "text", 200)
         for level in range(4):
-            add(api="deflate_stateless", inp=a, level=level, wrap=0, lbuf=3, calls=[[n, n * 2 + 100, 2, 0]], meta={"family": "oneshot-full-flush", "pair": len(scns) + 1})
+            add(api="deflate_stateless", inp=a, level=level, wrap=0, lbuf=3, table=[0, 1][(n + level) % 2] if level == 0 else 0, calls=[[n, n * 2 + 100, 2, 0]], meta={"family": "oneshot-full-flush", "pair": len(scns) + 1})
             add(api="deflate_stateless", inp=b, level=level, wrap=0, lbuf=3, calls=[[200, 1000, 0, 1]], meta={"family": "oneshot-final"})
     # (g) the same, but the one-shot calls are made on ONE context and level buffer without re-initialisation (the documented way of appending blocks)
     xs = [("text", 500), ("random", 300), ("runs", 2000), ("zeros", 4096), ("random", 98304), ("records", 30000), ("lowent", 9000)]
